@@ -548,6 +548,19 @@ func runLBDist(x *X) {
 		k := 1 + c.Intn(3, "rounds")
 		total := k*len(elig) + c.Intn(len(elig)+1, "extra")
 		var plans []*reqPlan
+		// now and then the measurement starts behind a crowd: a hundred and more requests are already
+		// held open on every backend (busy is not a reason to stop comparing)
+		if len(elig) >= 2 && len(elig) == len(members) && c.Intn(10, "lc-behind-a-crowd") == 0 {
+			crowd := (100+c.Intn(20, "crowd-per-backend"))*len(elig) + c.Intn(len(elig), "crowd-extra")
+			s.StepLimit *= 4
+			for j := 0; j < crowd && !x.dead; j++ {
+				p := &reqPlan{hold: true}
+				plans = append(plans, p)
+				s.Spawn("lc-crowd", func() { h.do(reqSpec{client: "192.0.2.1", plan: p}) })
+			}
+			x.Settle(onErr)
+			x.Probe("lc-behind-a-crowd")
+		}
 		switchAt := -1
 		if c.Intn(3, "switch-while-held") == 0 {
 			switchAt = c.Intn(total+1, "switch-at")
